@@ -215,7 +215,9 @@ func c8Program(cell c8Cell) (src, stdin string, pre map[string]string, expOut st
 // (the templates never contain these letters as words inside their own literals).
 var reVarXW = regexp.MustCompile(`\b[xw]\b`)
 
-var c8Hostile = []string{"$(touch CANARY)", "`touch CANARY`", "$HOME", "${x}", "$x", "*", "?", "[a]", "~", "{a,b}", "-n", "-e", "-E", "--", "-", "a  b", " lead", "trail ", "a;b", "a&b", "a|b", ">f", "<f", "\"", "'", "\\", "\\n", "a\\", "!", "!!", "#c", "a #c", "%s", "%d", "$(", "$((1+1))", "\"; touch CANARY; \"", "x\" y", "$1", "$@", "$?", "&&", "||", "(", ")", "=", "a=b"}
+var c8Hostile = []string{"$(touch CANARY)", "`touch CANARY`", "$HOME", "${x}", "$x", "*", "?", "[a]", "~", "{a,b}", "-n", "-e", "-E", "--", "-", "a  b", " lead", "trail ", "a;b", "a&b", "a|b", ">f", "<f", "\"", "'", "\\", "\\n", "a\\", "!", "!!", "#c", "a #c", "%s", "%d", "$(", "$((1+1))", "\"; touch CANARY; \"", "x\" y", "$1", "$@", "$?", "&&", "||", "(", ")", "=", "a=b",
+	// blanks and tabs next to an embedded line break (a literal with an embedded newline spans several script lines)
+	"a \nb", "a\t\nb", "a\n b", " \n ", "x \n", "\n x", "a  \n  b", "~", "~/x", "a=~/x", "\ta", "a\t"}
 
 var c8Paths = []string{"sink", "print", "print-two", "assign", "concat-left", "concat-right", "compare", "argument", "argument-second", "return", "slice-literal", "slice-assign", "slice-param", "range-slice", "range-string", "subscript", "len", "write", "switch"}
 var c8Origins = []string{"literal", "literal-direct", "raw-literal", "file", "stdin", "stdin-prompt", "stdin-function", "command"}
